@@ -24,6 +24,7 @@ mod c12;
 mod c13;
 mod c14;
 mod c15;
+mod c16;
 mod c20;
 mod sendsys;
 mod chan;
@@ -85,6 +86,7 @@ fn main() {
             "C13" => c13::replay(&v["replay"]),
             "C14" => c14::replay(&v["replay"]),
             "C15" => c15::replay(&v["replay"]),
+            "C16" => c16::replay(&v["replay"]),
             "C20" => c20::replay(&v["replay"]),
             _ => {
                 eprintln!("no replay for {}", id);
@@ -116,6 +118,7 @@ fn main() {
             "C13" => c13::run(thorough),
             "C14" => c14::run(thorough),
             "C15" => c15::run(thorough),
+            "C16" => c16::run(thorough),
             "C20" => c20::run(thorough),
             other => {
                 eprintln!("unknown check {}", other);
